@@ -151,7 +151,7 @@ def run(ctx):
         if x["ok"]:
             raise core.Infra("deviation %s violates nothing: invariants vacuous" % d)
         ctx.extra.setdefault("deviation_witnesses", {})[d] = x["violated"]
-    r = tlc.check("Pair.tla", "MC_Pair_export.cfg" if ctx.quick else "MC_Pair_export_thorough.cfg", workers=8, timeout=900)
+    r = tlc.check("Pair.tla", "MC_Pair_export.cfg" if ctx.quick else "MC_Pair_export_thorough.cfg", workers=1, timeout=900)
     scripts = tlc.leaves(r["out"])
     if len(scripts) < 500:
         raise core.Infra("history export produced only %d histories" % len(scripts))
